@@ -9,7 +9,7 @@ import ast
 import builtins
 import symtable
 
-from ..astutil import calls_in, call_name, dotted, norm, try_fold, walk_no_nested
+from ..astutil import calls_in, call_name, dotted, get_kwarg, norm, try_fold, walk_no_nested
 from ..callgraph import CallGraph, bind_args
 from ..cfg import cfg_of
 from ..core import AnalysisError
@@ -43,6 +43,14 @@ def run(repo, rep):
     rule_enums(repo, rep)
     rule_raises(repo, rep, cg, reach)
     rule_assert_discharge(repo, rep)
+    rule_exposed_rewrites(repo, rep)
+    rule_empty_reductions(repo, rep)
+    rule_report_none_operands(repo, rep)
+    rep.clause("C13-h", "the scale derivation never hands the bias / scale packer a shift it asserts against (range guard of quantise_scale == 0 <= shift < 64) [rule shared with C09-a]")
+    from . import c09
+
+    with rep.borrow({"C09-a": "C13-h"}):
+        c09.run(repo, rep)
     rep.clause("C13-f", "the writer can look up every operator code it registered (no KeyError while writing a model with several third-party custom operators) [rule shared with C11-d2]")
     from . import c11
 
@@ -530,3 +538,270 @@ def rule_assert_discharge(repo, rep):
         rep.check(txt == "tens.purpose", "C13-e", "ethosu/vela/mark_tensors.py:rewrite_mark_tensor_purpose",
                   "a tensor that already has a purpose is re-marked with that same purpose", f"re-marked with {txt}: mark_purpose hits `assert 0` for a constant shared between a weights slot and another input")
     rep.floor("C13-e", 1)
+
+
+OPTIONAL_ATTRS = ("quantization", "weights", "bias", "ifm2")
+
+
+def rule_exposed_rewrites(repo, rep):
+    """Operator rewrites run by a traversal with rewrite_unsupported=True (explicitly, or by the default of
+    rewrite_graph_pre_order) also visit operators the checkers rejected - float operators, operators whose tensors
+    lack quantisation, weights or bias. Such a rewrite (and the helpers it hands the operator to) must not dereference
+    an optional attribute (`x.quantization.y`, `x.weights.y`, `x.bias.y`, `x.ifm2.y`) unless a test of run_on_npu or of
+    that very attribute dominates the access."""
+    from ..cfg import cfg_of
+
+    rep.clause("C13-g", "rewrites that also visit rejected (CPU) operators never dereference an optional attribute (quantization / weights / bias / ifm2) without a dominating run_on_npu or None test")
+    go = repo.mod("tflite_graph_optimiser")
+    tg = go.func("tflite_optimise_graph")
+    rw = repo.mod("rewrite_graph").func("rewrite_graph_pre_order")
+    params = [a.arg for a in rw.args.args]
+    default = None
+    for a, d in zip(rw.args.args[-len(rw.args.defaults):], rw.args.defaults):
+        if a.arg == "rewrite_unsupported":
+            default = try_fold(d)
+    if default is None or "op_rewrite_list" not in params:
+        raise AnalysisError("rewrite_graph_pre_order signature not recognised")
+    lists = {}
+    for st in ast.walk(tg):
+        if isinstance(st, ast.Assign) and isinstance(st.targets[0], ast.Name) and isinstance(st.value, ast.List):
+            lists[st.targets[0].id] = st.value.elts
+
+    def returned_functions(fname):
+        f = go.functions.get(fname)
+        return [norm(r.value) for r in ast.walk(f) if isinstance(r, ast.Return) and isinstance(r.value, ast.Name)] if f is not None else []
+
+    exposed = []
+    n_calls = 0
+    for c in calls_in(tg, "rewrite_graph_pre_order"):
+        n_calls += 1
+        ru = get_kwarg(c, "rewrite_unsupported", params.index("rewrite_unsupported"))
+        val = default if ru is None else try_fold(ru)
+        if val is None:
+            raise AnalysisError(f"rewrite_unsupported argument not constant: {norm(ru)}")
+        if not val:
+            continue
+        ol = get_kwarg(c, "op_rewrite_list", params.index("op_rewrite_list"))
+        elts = lists.get(ol.id, []) if isinstance(ol, ast.Name) else (ol.elts if isinstance(ol, ast.List) else [])
+        for e in elts:
+            if isinstance(e, ast.Name):
+                exposed.append(e.id)
+            elif isinstance(e, ast.Call) and isinstance(e.func, ast.Name):
+                exposed += returned_functions(e.func.id)
+    if n_calls < 8:
+        raise AnalysisError(f"only {n_calls} rewrite_graph_pre_order calls found in tflite_optimise_graph")
+
+    def unguarded(fn):
+        c = cfg_of(fn)
+        out = []
+        for n in ast.walk(fn):
+            if isinstance(n, ast.Attribute) and isinstance(n.value, ast.Attribute) and n.value.attr in OPTIONAL_ATTRS:
+                prefix = norm(n.value)
+                node = c.node_of(n)
+                ok = False
+                if node is not None:
+                    for t in c.nodes[3:]:
+                        if t.kind == "test" and t.id != node and c.dominates(t.id, node) and ("run_on_npu" in norm(t.expr) or prefix in norm(t.expr)):
+                            sides = [any(b == node or c.path_avoiding(b, node, [t.id]) for b in c.branch_succ(t.id, lab)) for lab in (True, False)]
+                            if sides.count(True) == 1:
+                                ok = True
+                                break
+                    # `a.q is not None and a.q.x` / `a.q and a.q.x` inside one expression
+                    stmt_txt = norm(c.nodes[node].expr) if c.nodes[node].expr is not None else ""
+                    if not ok and (f"{prefix} is not None and" in stmt_txt or f"{prefix} and" in stmt_txt):
+                        ok = True
+                if not ok:
+                    out.append(norm(n))
+        return sorted(set(out))
+
+    seen = set()
+    for name in exposed:
+        todo = [(name, 0)]
+        while todo:
+            fnm, depth = todo.pop()
+            if fnm in seen or fnm not in go.functions:
+                continue
+            seen.add(fnm)
+            fn = go.functions[fnm]
+            bad = unguarded(fn)
+            rep.check(not bad, "C13-g", f"ethosu/vela/tflite_graph_optimiser.py:{fnm}", f"run on rejected operators too (via `{name}`): no unguarded dereference of an optional attribute",
+                      f"{bad[:3]} is evaluated for operators the checkers rejected; with the attribute absent (None) this is an AttributeError traceback instead of a CPU fallback")
+            if depth < 2:
+                for cl in calls_in(fn):
+                    cn = call_name(cl)
+                    if cn in go.functions and any(isinstance(a, ast.Name) and a.id == "op" for a in cl.args):
+                        todo.append((cn, depth + 1))
+    rep.floor("C13-g", 5)
+
+
+EMPTY_OK = {
+    ("tensor_allocation", "mark_sram_used_for_cascaded_passes", "sg"): "every subgraph that reaches allocation has at least one cascaded pass (pass packing always creates the start-up pass)",
+}
+
+
+def _discriminated(c, node, r):
+    """A test mentioning `r` dominates `node` and `node` is reachable from only one of its branches."""
+    if node is None:
+        return False
+    for t in c.nodes[3:]:
+        if t.kind == "test" and t.id != node and c.dominates(t.id, node) and r in {x.id for x in ast.walk(t.expr) if isinstance(x, ast.Name)}:
+            sides = [any(b == node or c.path_avoiding(b, node, [t.id]) for b in c.branch_succ(t.id, lab)) for lab in (True, False)]
+            if sides.count(True) == 1:
+                return True
+    return False
+
+
+def rule_empty_reductions(repo, rep):
+    """max() / min() of a single iterable argument raise ValueError on an empty sequence. A function that reduces a
+    sequence derived from one of its parameters this way is `empty-unsafe` in that parameter; every call must be
+    dominated by a test of the argument (its truthiness, length or a container attribute of it), or sit in a caller
+    that is itself empty-unsafe in the same value (checked at its callers in turn)."""
+    from ..cfg import cfg_of
+
+    rep.clause("C13-i", "single-argument max()/min() over a parameter-derived sequence is only reached through calls dominated by a non-emptiness test of that argument (options such as --verbose-allocation included)")
+
+    def root(e):
+        while True:
+            if isinstance(e, (ast.Attribute, ast.Subscript)):
+                e = e.value
+            elif isinstance(e, ast.Call) and isinstance(e.func, ast.Attribute) and not e.args:
+                e = e.func.value
+            elif isinstance(e, ast.Call) and e.args and isinstance(e.func, ast.Name) and e.func.id in ("list", "sorted", "tuple", "set", "reversed"):
+                e = e.args[0]
+            else:
+                break
+        return e.id if isinstance(e, ast.Name) else None
+
+    unsafe = {}
+    mods = [m for m in repo.core_modules()]
+    for m in mods:
+        for q, fn in m.functions.items():
+            params = [a.arg for a in fn.args.args if a.arg not in ("self", "cls")]
+            for c in ast.walk(fn):
+                if isinstance(c, ast.Call) and isinstance(c.func, ast.Name) and c.func.id in ("max", "min") and len(c.args) == 1 and not any(k.arg == "default" for k in c.keywords):
+                    a = c.args[0]
+                    src = a.generators[0].iter if isinstance(a, (ast.GeneratorExp, ast.ListComp)) else a
+                    r = root(src)
+                    if r in params:
+                        unsafe.setdefault((m.name, q), {}).setdefault(r, norm(c)[:70])
+    if len(unsafe) < 2:
+        raise AnalysisError("no parameter-derived single-argument max()/min() found (idiom changed?)")
+    n = 0
+    for _ in range(3):  # propagate through unguarded wrappers
+        changed = False
+        for m in mods:
+            for q, fn in m.functions.items():
+                c = None
+                for call in calls_in(fn):
+                    cn = call_name(call)
+                    if not cn:
+                        continue
+                    tgt = [(k, v) for k, v in unsafe.items() if k[1].split(".")[-1] == cn.split(".")[-1] and (k[0] == m.name or cn.split(".")[0] in (k[0],) or cn == k[1])]
+                    if len(tgt) != 1:
+                        continue
+                    (tm_, tq), pars = tgt[0]
+                    tfn = repo.mod(tm_).functions[tq]
+                    tparams = [a.arg for a in tfn.args.args if a.arg not in ("self", "cls")]
+                    for par, why in pars.items():
+                        idx = tparams.index(par)
+                        arg = get_kwarg(call, par, idx)
+                        r = root(arg) if arg is not None else None
+                        if r is None:
+                            continue
+                        if c is None:
+                            c = cfg_of(fn)
+                        node = c.node_of(call)
+                        guarded = _discriminated(c, node, r)
+                        mine = [a.arg for a in fn.args.args]
+                        if guarded:
+                            continue
+                        if r in mine and r not in ("self", "cls"):
+                            if r not in unsafe.get((m.name, q), {}):
+                                unsafe.setdefault((m.name, q), {})[r] = f"passes it to {tq} unguarded"
+                                changed = True
+        if not changed:
+            break
+    for m in mods:
+        for q, fn in m.functions.items():
+            c = None
+            for call in calls_in(fn):
+                cn = call_name(call)
+                if not cn:
+                    continue
+                tgt = [(k, v) for k, v in unsafe.items() if k[1].split(".")[-1] == cn.split(".")[-1] and (k[0] == m.name or cn.split(".")[0] in (k[0],) or cn == k[1])]
+                if len(tgt) != 1:
+                    continue
+                (tm_, tq), pars = tgt[0]
+                tfn = repo.mod(tm_).functions[tq]
+                tparams = [a.arg for a in tfn.args.args if a.arg not in ("self", "cls")]
+                for par, why in pars.items():
+                    arg = get_kwarg(call, par, tparams.index(par))
+                    r = root(arg) if arg is not None else None
+                    if r is None:
+                        continue
+                    site = f"ethosu/vela/{m.name}.py:{q}"
+                    if (tm_, tq, par) in EMPTY_OK:
+                        rep.info("C13-i", site, f"{norm(call)[:70]}", "reviewed: " + EMPTY_OK[(tm_, tq, par)])
+                        continue
+                    if c is None:
+                        c = cfg_of(fn)
+                    node = c.node_of(call)
+                    guarded = _discriminated(c, node, r)
+                    passes_on = r in [a.arg for a in fn.args.args] and r in unsafe.get((m.name, q), {})
+                    n += 1
+                    rep.check(guarded or passes_on, "C13-i", site, f"`{norm(call)[:70]}` ({tq} reduces `{par}` with {why}) is dominated by a test of `{r}`" if guarded or not passes_on else
+                              f"`{norm(call)[:70]}` hands `{r}` on; the emptiness obligation moves to this function's callers",
+                              f"no test of `{r}` dominates the call: with an empty sequence {tq} raises ValueError (a traceback, not a controlled error)")
+    rep.floor("C13-i", 3)
+
+
+def rule_report_none_operands(repo, rep):
+    """The summary / --show-cpu-operations report walks the operand lists of *CPU* operators, which the reader fills with
+    None for absent optional operands (e.g. a bias-less fully connected). Report code that iterates an operator's
+    `inputs` (directly, or through a local helper that is handed `op.inputs`) must test the element before using it."""
+    rep.clause("C13-j", "report code that walks operand lists of CPU operators tolerates absent (None) operands")
+    sw = repo.mod("stats_writer")
+
+    def none_tested(node, var):
+        for n in ast.walk(node):
+            if isinstance(n, ast.Compare) and isinstance(n.left, ast.Name) and n.left.id == var and any(isinstance(o, (ast.Is, ast.IsNot)) for o in n.ops):
+                return True
+            if isinstance(n, (ast.If, ast.IfExp)) and isinstance(n.test, ast.Name) and n.test.id == var:
+                return True
+            if isinstance(n, ast.BoolOp) and any(isinstance(v, ast.Name) and v.id == var for v in n.values):
+                return True
+            if isinstance(n, ast.comprehension) and any(isinstance(i, ast.Name) and i.id == var for i in n.ifs):
+                return True
+        return False
+
+    n = 0
+    for q, fn in sw.functions.items():
+        # local helpers handed `<x>.inputs`
+        listy = {}
+        for c in calls_in(fn):
+            for i, a in enumerate(c.args):
+                if norm(a).endswith(".inputs") and isinstance(c.func, ast.Name):
+                    for q2, f2 in sw.functions.items():
+                        if q2.split(".")[-1] == c.func.id and i < len(f2.args.args):
+                            listy.setdefault(q2, set()).add(f2.args.args[i].arg)
+        for q2, f2 in list(sw.functions.items()):
+            names = set(listy.get(q2, ())) if q2 in listy else set()
+            if q2 != q and q2 not in listy:
+                continue
+            for node in ast.walk(f2):
+                loops = []
+                if isinstance(node, ast.For) and isinstance(node.target, ast.Name):
+                    loops.append((node.target.id, node.iter, node))
+                if isinstance(node, (ast.GeneratorExp, ast.ListComp, ast.SetComp)):
+                    loops += [(g.target.id, g.iter, node) for g in node.generators if isinstance(g.target, ast.Name)]
+                for var, it_, body in loops:
+                    t = norm(it_)
+                    if not (t.endswith(".inputs") or t in names):
+                        continue
+                    der = [norm(x) for x in ast.walk(body) if isinstance(x, ast.Attribute) and isinstance(x.value, ast.Name) and x.value.id == var]
+                    if not der:
+                        continue
+                    n += 1
+                    rep.check(none_tested(body, var), "C13-j", f"ethosu/vela/stats_writer.py:{q2}", f"`{norm(body)[:80]}`: operands are tested for None before `{der[0]}`",
+                              f"`{der[0]}` is evaluated for every operand of a CPU operator; an absent optional operand (None) gives an AttributeError traceback under --show-cpu-operations")
+    rep.floor("C13-j", 1)
